@@ -851,7 +851,8 @@ def run(tier, seed, build):
             if vA.get(r["id"], ("",))[0] == "ok" and len(r["ret"]["increments"]) >= 2 and sg["tol"] == (1, 1024)
             and any(e["fn"] == "kT" for e in r["calls"][3:])]
     if not cand:
-        rep.machinery("no accepted run available for the binding self-test")
+        if not rep.violations:
+            rep.machinery("no accepted run available for the binding self-test")
     else:
         sg, r0 = cand[len(cand) // 2]
         cor = corruptions(r0, 10 ** 6)
